@@ -31,7 +31,7 @@ class C15(Prop):
 
     @property
     def gens(self):
-        return [gen_dirs.gen_dirs_corpus, gen_dirs.gen_dirs_examples, gen_dirs.gen_dirs, gen_dirs.gen_dirs_cv_bounds,
+        return [gen_dirs.gen_dirs_corpus, gen_dirs.gen_dirs_examples, gen_dirs.gen_dirs, gen_dirs.gen_dirs_cv_bounds, gen_dirs.gen_dirs_misc_bounds,
                 gen_dirs.gen_dirs_overlay, gen_dirs.gen_dirs_fuzz, gen_dirs.gen_pogo_hist, gen_dirs_iter]
 
     def judge(self, op, impl, model, spec):
